@@ -120,6 +120,17 @@ def memo (m : Mat r c α) : Mat r c α :=
 
 def toList (m : Mat r c α) : List α := (List.finRange r).flatMap (fun i => (List.finRange c).map (m i))
 
+/-- a matrix as stored data: the function representation re-evaluates its defining expression at every
+lookup, so a model that iterates (the Jacobi solver) stores its matrices between steps.
+`thaw (freeze m) = m` (`thaw_freeze`): storing changes nothing but the running time of the driver. -/
+structure Frozen (r c : Nat) (α : Type) where
+  arr : Array (Array α)
+def freeze (m : Mat r c α) : Frozen r c α := ⟨Array.ofFn (fun i : Fin r => Array.ofFn (fun j : Fin c => m i j))⟩
+def thaw (f : Frozen r c α) : Mat r c α := fun i j => ((f.arr[i.val]?).bind (fun row => row[j.val]?)).getD zero
+@[simp] theorem thaw_freeze (m : Mat r c α) : thaw (freeze m) = m := by
+  funext i j
+  simp [thaw, freeze, i.isLt, j.isLt]
+
 /-- `rotation(v, radians)` with `s = sin`, `c = cos` and `u = 1.0 - c` as leaves (all three are
 computed in `double` by the C++; the matrix entries are then formed in the scalar type `T`) -/
 def rotationU (v : Vec 3 α) (s c u : α) : Mat 3 3 α :=
